@@ -151,7 +151,11 @@ static struct ubuf *UB(int i) { return uref_mode ? R[i]->ubuf : B[i]; }
 static void put(int i, struct ubuf *u)
 {
     if (uref_mode) {
+        /* (the harness's own uref: not an allocation of the operation under test - no refusal here) */
+        int cd = malloc_cd;
+        malloc_cd = 0;
         struct uref *r = uref_alloc(uref_mgr);
+        malloc_cd = cd;
         assert(r != NULL);
         uref_attach_ubuf(r, u);
         R[i] = r;
